@@ -49,6 +49,7 @@ def _worker_init(scratch_root):
         # TensorFlow's C++ runtime chatter; Python tracebacks travel in results
         dn = os.open(os.devnull, os.O_WRONLY)
         os.dup2(dn, 2)
+        os.dup2(dn, 1)  # the library prints progress / results; ours travel as return values
         os.close(dn)
     sys.setrecursionlimit(max(sys.getrecursionlimit(), 3000))
 
